@@ -177,9 +177,7 @@ theorem fromCtyP_noPanic : ∀ (p : Payload) (ty : Ty) (T : GoTy), containsMarke
       · split
         · split
           · rfl
-          · split
-            · rfl
-            · simp [mapRes_isPanic, combAll_isPanic _ (fromCtyA_noPanic cs _ _ _ _ h)]
+          · simp [mapRes_isPanic, combAll_isPanic _ (fromCtyA_noPanic cs _ _ _ _ h)]
         · split <;> rfl
         · split <;> rfl
         · rfl
